@@ -315,7 +315,16 @@ func genPatterns(r *gen.Rand, n int, have []string) []string {
 			p += "$"
 		}
 		if r.Chance(1, 12) {
-			p = "(?i)" + p
+			// the model folds ASCII letters only (Go folds é/É, k/K(Kelvin), s/long-s ...): no case folding over non-ASCII literals
+			ascii := true
+			for _, c := range p {
+				if c > 127 {
+					ascii = false
+				}
+			}
+			if ascii {
+				p = "(?i)" + p
+			}
 		}
 		if seen[p] || len(p) > 40 {
 			continue
